@@ -706,6 +706,7 @@ func (p *Printer) wordPart(wp, next WordPart) {
 			case len(name) > 1 && !ValidName(name): // ${10}
 			case ValidName(name + litCont): // ${var}cont
 			case litCont == "[": // zsh reads $var[1] as ${var[1]}
+			case litCont == "{": // ${var}{a,b}: brace expansion runs before parameter expansion
 			case name == "#" && next != nil: // zsh reads $#var, $#@ or $#"x" as a length
 			default:
 				x2 := *wp
